@@ -271,6 +271,14 @@ package commands
 // it is stopped by a registered defer, and the adapters' Stop reaches the wrapped iterator, see pkg/storage)
 //@ func (*ExpandQuery).resolveThis(q, ctx, store, tk, typesys, consistency) (res, err)
 //@   property C30 C20
+// "... list, sorted and without duplicates": the users are collected from the key set of a map (a map range yields
+// every key at most once) and only permuted afterwards
+//@   loop 1 invariant (forall a int :: 0 <= a && a < len(users) ==> $seen[users[a]]) && (forall a int, b int :: 0 <= a && a < b && b < len(users) ==> users[a] != users[b])
+//@   ensures @noDuplicates err == nil ==> distinctAfterSort && sortedSlice == users
+//@   monitor dedup
+//@     ghost distinctAfterSort = false
+//@     ghost sortedSlice []string = sortedSlice
+//@     after call slices.Sort args x : distinctAfterSort = (forall a int, b int :: 0 <= a && a < b && b < len(x) ==> x[a] != x[b]) ; sortedSlice = x
 //@   option monitor_props release=C20
 //@   ensures @iteratorReleased opened ==> released
 //@   monitor release
